@@ -216,6 +216,13 @@ class Conn:
         """Schedule `data` to arrive at the client `delay` seconds from now."""
         return self.net.loop.call_later(delay, self._deliver, data)
 
+    def deliver_many(self, chunks, delay: float):
+        """Several segments arriving back to back at the same instant, in order (separate data_received calls)."""
+        def run():
+            for c in chunks:
+                self._deliver(c)
+        return self.net.loop.call_later(delay, run)
+
     def deliver_at(self, data: bytes, when: float):
         return self.net.loop.call_at(when, self._deliver, data)
 
